@@ -79,6 +79,16 @@ def gen_spec(rng, kind=None):
             spec["max_num_checkpoints"] = spec["n_workers"] + rng.randint(1, 3)
     elif kind in ("sync", "dehb"):
         spec.update(max_t=rng.choice([9, 9, 27, 8]), rf=rng.choice([2, 3]), nan_den=rng.choice([None, 2, 3, 5]))
+        # number of brackets (per iteration): None = default (= number of rung levels), or 1..number of rung levels;
+        # DEHB also with a custom first-bracket rung system and num_brackets_per_iteration below the number of rungs
+        n_levels, lv = 1, spec["rf"]
+        while lv <= spec["max_t"]:
+            n_levels, lv = n_levels + 1, lv * spec["rf"]
+        spec["brackets"] = rng.choice([None, None] + list(range(1, n_levels + 1)))
+        if kind == "dehb" and rng.random() < 0.3:
+            spec["custom_rungs"] = rng.choice([[[4, 1], [2, 3], [1, 9]], [[3, 1], [1, 2]], [[6, 1], [3, 2], [2, 4], [1, 8]]])
+            spec["max_t"] = spec["custom_rungs"][-1][1]
+            spec["brackets"] = rng.choice([None] + list(range(1, len(spec["custom_rungs"]) + 1)))
         if kind == "sync":
             # the Tuner installs RemoveCheckpointsCallback itself iff delete_checkpoints; a user may also add it
             spec["remove_callback"] = spec["delete_checkpoints"] or rng.random() < 0.3
@@ -121,12 +131,17 @@ def build_scheduler(spec, be=None):
     if kind == "sync":
         from syne_tune.optimizer.schedulers.synchronous.hyperband_impl import SynchronousGeometricHyperbandScheduler
         return SynchronousGeometricHyperbandScheduler(cs, searcher="random", grace_period=1,
-                                                      reduction_factor=spec["rf"], **common)
+                                                      reduction_factor=spec["rf"], brackets=spec.get("brackets"), **common)
     if kind == "dehb":
         from syne_tune.optimizer.schedulers.synchronous.hyperband_impl import (
             GeometricDifferentialEvolutionHyperbandScheduler)
+        if spec.get("custom_rungs"):
+            from syne_tune.optimizer.schedulers.synchronous.dehb import DifferentialEvolutionHyperbandScheduler
+            return DifferentialEvolutionHyperbandScheduler(
+                cs, rungs_first_bracket=[tuple(x) for x in spec["custom_rungs"]],
+                num_brackets_per_iteration=spec.get("brackets"), **common)
         return GeometricDifferentialEvolutionHyperbandScheduler(cs, grace_period=1, reduction_factor=spec["rf"],
-                                                                **common)
+                                                                brackets=spec.get("brackets"), **common)
     from syne_tune.optimizer.schedulers.pbt import PopulationBasedTraining
     return PopulationBasedTraining(cs, custom_explore_fn=Explorer(be) if be is not None else None,
                                    max_t=spec["max_t"], population_size=spec["population_size"],
